@@ -135,6 +135,9 @@ def base_sids(ref, pr, variants):
     return out
 
 
+_FILL: dict = {}
+
+
 def check_case(ref, prefs, owners, case):
     """case = [path, config, order]  order in 'cold' | 'after-other'"""
     from spil import Sid
@@ -163,8 +166,31 @@ def check_case(ref, prefs, owners, case):
                         z.path(c), z.path(config=c), z.path()
                     except Exception:  # noqa
                         pass
+        if order == "after-overflow":
+            # more distinct paths than the caches hold (capacity 2, then 3), the path asked before and again after the overflow
+            eff = c or [pr.default for pr in prefs.values()][0]
+            if eff not in _FILL:
+                _FILL[eff] = sorted(q for (cc, q) in owners if cc == eff)
+            fill = [q for q in _FILL[eff][:5] if q != p][:4]
+            firsts = []
+            for cap, before, after in ((2, fill[:1], fill[1:2]), (3, fill[:2], fill[2:4])):
+                env.reset()
+                env.set_cache_capacity(cap)
+                for q in before:
+                    Sid(path=q, config=c).path(c)
+                x1 = Sid(path=p, config=c)
+                firsts.append((x1.uri, str(x1.path(c)) if x1 else None))
+                for q in after + before[:1]:
+                    Sid(path=q, config=c).path(c)
+                x = Sid(path=p, config=c)
+                if (x.uri, str(x.path(c)) if x else None) != firsts[-1]:
+                    env.set_cache_capacity(None)
+                    return [dict(signature="answer-changes-after-cache-overflow", observed=[x.uri, str(x.path(c)) if x else None, cap],
+                                 expected=list(firsts[-1]))], "typed" if x else "untyped"
+            env.set_cache_capacity(None)
         x = Sid(path=p, config=c)
     except Exception as e:  # noqa
+        env.set_cache_capacity(None)
         sig = f"exception/{type(e).__name__}"
         if type(e).__name__ == "ResolvaException":
             sig += "/desynchronised-repeated-field"
@@ -308,7 +334,7 @@ def run_shard(sh):
                 rec.case(cls + "/no-config-argument/" + order, True, sample=[p, None, order])
                 for v in viols:
                     rec.violation(v["signature"] + "/no-config-argument", "path", [p, None, order, sh.get("first")], v["observed"], v["expected"])
-        for order in ("cold", "after-other", "after-string-sid"):
+        for order in ("cold", "after-other", "after-string-sid", "after-overflow"):
             if order == "after-string-sid" and not any(ch in p for ch in "?:"):
                 continue        # string and fields denote the same Sid: nothing another Sid could have answered
             viols, cls = check_case(ref, prefs, owners, [p, c, order])
